@@ -27,7 +27,7 @@ ASSUMPTIONS = [
 MIN_NONTRIVIAL = {"quick": 1500, "thorough": 30000}
 REQUIRED_COUNTERS = {"twin_pairs": {"quick": 3000, "thorough": 50000},
                      "extractions_in_observed_runs": {"quick": 10000, "thorough": 200000},
-                     "refcount_checks": {"quick": 10000, "thorough": 200000},
+                     "refcount_checks": {"quick": 5000, "thorough": 100000},
                      "valuestack_iters_checked": {"quick": 500, "thorough": 5000},
                      "weakref_death_checks": {"quick": 1000, "thorough": 20000},
                      "tree_objects_checked_for_retention": {"quick": 5000, "thorough": 100000}}
